@@ -42,7 +42,7 @@ const MASKS: [u8; 5] = [0x01, 0x02, 0x10, 0x80, 0xFF];
 pub fn gen_case(rng: &mut Rng, thorough: bool) -> CorruptCase {
   let cfg = Cfg {
     storage: StorageKind::Fs,
-    profile: *rng.pick(&[Profile::Basic, Profile::Basic, Profile::Nested]),
+    profile: *rng.pick(&[Profile::Basic, Profile::Basic, Profile::Nested, Profile::Rich]),
     positions: rng.chance(1, 2),
     ids: 2 + rng.usize(3),
     transparent: false,
